@@ -1,20 +1,22 @@
 """U4f: case executor (brush-core/src/interp.rs): first match, `;;` `;&` `;;&`."""
 from .common import runtime_options_item
+import re
 from vx.extract import C
 from .exec_common import exec_unit, begin_ast, end_ast, FOOTER
 
-PROPS = ['C02', 'C03', 'C16', 'C01']
+PROPS = ['C02', 'C03', 'C16', 'C08', 'C01']
 
 RUN = 'case_run(new_events(old(shell).trace(), %s.trace()), *self_, outer)'
 
 
 def build(repo, findings):
     u, interp = exec_unit(
-        'U4f', 'case executor vs POSIX/bash fold semantics', repo, ['CompoundList', 'SourceSpan', 'Word'],
+        'U4f', 'case executor vs POSIX/bash fold semantics', repo, ['CompoundList', 'SourceSpan'],
         'pub enum Node { Cmd(ast::CompoundList), ExpandWord(ast::Word), ExpandPat(ast::Word) }\n',
         aux='pub struct Aux { pub s: Seq<char>, pub pat: patterns::Pattern, pub eg: bool, pub ci: bool }\n')
     ast = u.source('brush-parser/src/ast.rs')
     begin_ast(u)
+    u.add(ast.item(r'^pub struct Word ', 'Word').r1(keep_derive=()))     # the real struct: a fast path that looks at the raw text of a pattern is then real code too
     u.add(ast.item(r'^pub struct CaseClauseCommand ', 'CaseClauseCommand').r1(keep_derive=()))
     u.add(ast.item(r'^pub struct CaseItem ', 'CaseItem').r1(keep_derive=()))
     u.add(ast.item(r'^pub enum CaseItemPostAction ', 'CaseItemPostAction').r1(keep_derive=()))
@@ -32,9 +34,14 @@ def build(repo, findings):
     f = interp.method(r'^impl Execute for ast::CaseClauseCommand ', 'execute', fn)
     f.r1().r2_xtrace().r3().r4().r5_self('ast::CaseClauseCommand', fn)
     f.r13(fn, 0)   # outer loop over clauses contains `continue`
+    b1, o1, e1 = f._loop_span(fn, 1)
+    inner_continue = re.search(r'\bcontinue\b', f.text[o1:e1]) is not None
+    if inner_continue:
+        f.r13(fn, 1, itname='__it2')
+    f.resub(r'\.contains\(\[([^\]]*)\]\)', r'.vx_contains_any(&[\1])', 'R14', 'str::contains([chars]) -> stub (uninterpreted)', count=None)
     f.sig(fn, ret='res', ensures=[
         C('aux trace-extends', 'old(shell).trace().is_prefix_of(final(shell).trace())'),
-        C('C02,C03 case-fold', '''({
+        C('C02,C03,C08 case-fold', '''({
     let st = case_run(new_events(old(shell).trace(), final(shell).trace()), *self_, params.suppress_errexit);
     match res {
         Ok(r) => st == St::Done(r.next_control_flow, r.exit_code) && final(shell).status() == u8_of(r.exit_code),
@@ -50,7 +57,7 @@ def build(repo, findings):
         C('aux', 'forall|i: int| 0 <= i < __it.remaining().len() ==> *(#[trigger] __it.remaining()[i]) == self_.cases@[%s + i]' % IDX),
         C('aux', '__it.obeys_prophetic_iter_laws()'),
         C('aux', 'result.next_control_flow is Normal'),
-        C('C02,C03 case-fold-running', '''({
+        C('C02,C03,C08 case-fold-running-every-pattern-is-expanded-and-matched-under-the-extglob-and-nocasematch-options', '''({
     let st = %s;
     let v = expanded_value@;
     if force_execute_next_case { st == select(*self_, v, %s, result.exit_code) }
@@ -64,23 +71,45 @@ def build(repo, findings):
     ], decreases='self_.cases@.len() - gi', body_first='let ghost r0 = __it.remaining();\nlet ghost idx = gi;\nbroadcast use {lemma_new_events_push, lemma_case_run_push};')
     # facts about the element just pulled (right after the R13 `let case = match __it.next() {..};`)
     f.after_line(r'^\s*None => break,\n\s*\};', 'proof { assert(r0.len() > 0); assert(*case == *r0[0]); assert(__it.remaining() =~= r0.skip(1)); assert(*case == self_.cases@[idx]); gi = gi + 1; }', fn_name=fn)
-    # inner loop over the patterns of one clause
-    f.loop(1, fn_name=fn, iter_name='it2', invariant_except_break=[
-        C('aux', 'it2.index@ + it2.iter.remaining().len() == case.patterns@.len()'),
-        C('aux', 'forall|i: int| 0 <= i < it2.iter.remaining().len() ==> *(#[trigger] it2.iter.remaining()[i]) == case.patterns@[it2.index@ + i]'),
-        C('aux', '!matches'),
-        C('C02,C03 case-testing', (RUN % 'shell') + ' == norm_test(*self_, expanded_value@, idx, it2.index@ as int, result.exit_code)'),
-    ], invariant=[
-        C('aux', 'outer == params.suppress_errexit'),
-        C('aux', '0 <= idx < self_.cases@.len() && *case == self_.cases@[idx]'),
-        C('aux', 'old(shell).trace().is_prefix_of(shell.trace())'),
-    ], ensures=[
-        C('C02,C03 case-tested', '''({
+    # inner loop over the patterns of one clause.  As written it has no `continue` and stays a `for`; a version that has one (Verus takes no
+    # `continue` in a for loop) is put into the language-defined loop/next form (R13) with the same invariants over a ghost index.
+    if inner_continue:
+        f.before(r'^\s*let mut __it2 = ', 'let ghost mut gj: int = 0;', fn_name=fn)
+        f.loop(1, fn_name=fn, invariant_except_break=[
+            C('aux', '0 <= gj && gj + __it2.remaining().len() == case.patterns@.len()'),
+            C('aux', 'forall|i: int| 0 <= i < __it2.remaining().len() ==> *(#[trigger] __it2.remaining()[i]) == case.patterns@[gj + i]'),
+            C('aux', '__it2.obeys_prophetic_iter_laws()'),
+            C('aux', '!matches'),
+            C('C02,C03,C08 case-testing', (RUN % 'shell') + ' == norm_test(*self_, expanded_value@, idx, gj, result.exit_code)'),
+        ], invariant=[
+            C('aux', 'outer == params.suppress_errexit'),
+            C('aux', '0 <= idx < self_.cases@.len() && *case == self_.cases@[idx]'),
+            C('aux', 'old(shell).trace().is_prefix_of(shell.trace())'),
+        ], ensures=[
+            C('C02,C03,C08 case-tested', '''({
     let st = %s;
     if matches { st == select(*self_, expanded_value@, idx, result.exit_code) }
     else { st == norm_test(*self_, expanded_value@, idx + 1, 0, result.exit_code) }
 })''' % (RUN % 'shell')),
-    ], body_first='broadcast use {lemma_new_events_push, lemma_case_run_push};\nproof { assert(*pattern == case.patterns@[it2.index@ as int]); }')
+        ], decreases='case.patterns@.len() - gj', body_first='let ghost r1 = __it2.remaining();\nbroadcast use {lemma_new_events_push, lemma_case_run_push};')
+        f.after_line(r'^\s*None => break,\n\s*\};', 'proof { assert(r1.len() > 0); assert(*pattern == *r1[0]); assert(__it2.remaining() =~= r1.skip(1)); assert(*pattern == case.patterns@[gj]); gj = gj + 1; }', fn_name=fn, nth=1)
+    else:
+        f.loop(1, fn_name=fn, iter_name='it2', invariant_except_break=[
+            C('aux', 'it2.index@ + it2.iter.remaining().len() == case.patterns@.len()'),
+            C('aux', 'forall|i: int| 0 <= i < it2.iter.remaining().len() ==> *(#[trigger] it2.iter.remaining()[i]) == case.patterns@[it2.index@ + i]'),
+            C('aux', '!matches'),
+            C('C02,C03,C08 case-testing', (RUN % 'shell') + ' == norm_test(*self_, expanded_value@, idx, it2.index@ as int, result.exit_code)'),
+        ], invariant=[
+            C('aux', 'outer == params.suppress_errexit'),
+            C('aux', '0 <= idx < self_.cases@.len() && *case == self_.cases@[idx]'),
+            C('aux', 'old(shell).trace().is_prefix_of(shell.trace())'),
+        ], ensures=[
+            C('C02,C03 case-tested', '''({
+        let st = %s;
+        if matches { st == select(*self_, expanded_value@, idx, result.exit_code) }
+        else { st == norm_test(*self_, expanded_value@, idx + 1, 0, result.exit_code) }
+    })''' % (RUN % 'shell')),
+        ], body_first='broadcast use {lemma_new_events_push, lemma_case_run_push};\nproof { assert(*pattern == case.patterns@[it2.index@ as int]); }')
     u.add(f)
     u.raw(FOOTER)
     u.assume('external_body', 'basic_expand_word / basic_expand_pattern are abstract children (one event each); patterns::Pattern and its set_extended_globbing / set_case_insensitive / exactly_matches are opaque with uninterpreted results; Shell::options is a view of opts()')
